@@ -348,7 +348,9 @@ def _anc_list(v, anc):
             yield from _anc_list(x, anc)
 
 
-_ADAPTERS = ("iter", "into_iter", "iter_mut", "enumerate", "rev", "cloned", "copied", "by_ref")
+# adaptors that yield at least one element whenever the receiver has one
+_ADAPTERS = ("iter", "into_iter", "iter_mut", "enumerate", "rev", "cloned", "copied", "by_ref", "chunks", "rchunks", "chunks_mut", "map", "collect", "collect_vec",
+             "to_vec", "to_owned", "clone", "sorted", "sorted_by", "sorted_by_key")
 
 
 def _base_local(e):
@@ -460,6 +462,11 @@ def r117(ctx, fx):
     changed = True
     while changed:
         changed = False
+        # `let C = <a member, through adaptors that keep every element>`
+        for n in lib.hwalk(body):
+            if n.get("k") == "let" and "init" in n and n["pat"].get("k") == "bind" and n["pat"]["name"] not in nonempty and _base_local(n["init"]) in nonempty:
+                nonempty.add(n["pat"]["name"])
+                changed = True
         for n, it, b in all_fors:
             src = _base_local(it)
             if src in nonempty:
